@@ -455,6 +455,12 @@ def guarded_ge(f, block, l_op, r_op):
                 implied = false_t
         if implied is not None and f.edge_dominates(b, implied, block):
             return True
+    # behind the Some edge of `l.checked_sub(r)` (possibly continued with and_then / map / filter): l >= r
+    from rules_sym import deep, option_tests
+    want = "num::checked_sub(%s, %s)" % (deep(f, l_op, 6), deep(f, r_op, 6))
+    for sb_, some_, none_ in option_tests(f, lambda d: re.sub(r"^(Option::(and_then|map|filter)\()+", "", d).startswith(want)):
+        if f.edge_dominates(sb_, some_, block):
+            return True
     return False
 
 
